@@ -117,7 +117,7 @@ fn real_main(args: &[String], scratch: &str) -> i32 {
                 "C10s2m" | "C10m2s" | "C10s2m-free" | "C10m2s-free" | "C10big" => conc::replay_min(&mut ctx, &args[2..]),
                 "C05cfg" => conc::replay_c05cfg(&mut ctx, &args[2..]),
                 "OligoReuse" => conc::replay_oligo_reuse(&mut ctx, &args[2..]),
-                "C06" | "C06long" | "C06size" | "C06header" | "C06many" | "C06len" | "C07" | "C08" | "C08one" | "C08bin" | "C08direct" | "C08reuse" => files::replay(&mut ctx, &args[2..]),
+                "C06" | "C06hist" | "C06long" | "C06size" | "C06header" | "C06many" | "C06len" | "C07" | "C08" | "C08one" | "C08bin" | "C08direct" | "C08reuse" => files::replay(&mut ctx, &args[2..]),
                 other => {
                     eprintln!("unknown case kind {}", other);
                     return 2;
